@@ -29,6 +29,8 @@ import (
 type hScenario struct {
 	js       []byte
 	mappings []byte
+	srcByte  byte // one byte of the "sources" array (in the Prefix piece)
+	nameByte byte // one byte of the "names" array (in the Suffix piece)
 	hasMap   bool
 	legal    []byte
 }
@@ -111,9 +113,9 @@ func hStubGenerateChunkJS(c *linkerContext, chunkIndex int, chunkWaitGroup *sync
 	chunk.intermediateOutput = c.breakJoinerIntoPieces(j)
 	if hScen.hasMap {
 		chunk.outputSourceMap = sourcemap.SourceMapPieces{
-			Prefix:   []byte("{\"version\":3,\"mappings\":\""),
+			Prefix:   []byte("{\"version\":3,\"sources\":[\"" + string([]byte{hScen.srcByte}) + "\"],\"mappings\":\""),
 			Mappings: hScen.mappings,
-			Suffix:   []byte("\"}"),
+			Suffix:   []byte("\",\"names\":[\"" + string([]byte{hScen.nameByte}) + "\"]}"),
 		}
 	}
 	chunk.externalLegalComments = hScen.legal
@@ -144,6 +146,9 @@ func hMkBuild(free int) hBuild {
 		vAssume(m0 >= 'A' && m0 <= 'Z')
 		b.scen.hasMap = true
 		b.scen.mappings = []byte{m0, 'A', 'A', 'A'}
+		s0, n0 := vU8(), vU8()
+		vAssume(s0 >= 'a' && s0 <= 'z' && n0 >= 'a' && n0 <= 'z')
+		b.scen.srcByte, b.scen.nameByte = s0, n0
 	}
 	if b.legalMode != 0 {
 		l0 := vU8()
